@@ -2,6 +2,12 @@
 import os, re, json, subprocess, collections
 from .env import *
 
+# address-space cap of the implementation process: an input that makes the real code allocate
+# gigabytes (a hostile remaining length, C05) must end in a crashed stream, not in the sandbox
+# swapping.  GOMEMLIMIT alone is a soft limit.
+# (set through the shell's ulimit: preexec_fn is not safe in the threaded check driver)
+IMPL_AS_LIMIT_KB = 12 << 20
+
 
 def gen_ops(gen, seed, n, tier, extra=()):
     rc, out = run([CORR, 'gen', gen, '-seed', str(seed), '-n', str(n), '-tier', tier] + list(extra),
@@ -23,7 +29,8 @@ def run_impl(ops, timeout=1800, mem='4GiB'):
     env = dict(GOENV, GOMEMLIMIT=mem)
     data = ('\n'.join(ops) + '\n').encode()
     # the library logs to stderr: keep it out of the stream
-    rc, out = run([CORR, 'run'], env=env, stdin=data, timeout=timeout, stderr=subprocess.DEVNULL)
+    rc, out = run(['/bin/sh', '-c', 'ulimit -v %d 2>/dev/null; exec "$0" run' % IMPL_AS_LIMIT_KB, CORR],
+                  env=env, stdin=data, timeout=timeout, stderr=subprocess.DEVNULL)
     ls = _lines(out, len(ops))
     crashed = None
     if rc != 0 or len(ls) < len(ops):
